@@ -134,7 +134,7 @@ theorem copyRec_cases {out : History} {r r' : Rec} (h : copyRec out r = .ok r') 
   · left; injection h with h; exact h.symm
   · rename_i bt hb
     split at h
-    · cases h
+    · right; injection h with h; exact ⟨h.symm, by simp [hb]⟩
     · split at h
       · right; injection h with h; exact ⟨h.symm, by simp [hb]⟩
       · split at h
@@ -173,11 +173,8 @@ theorem copyTxn_core {out : History} {t t' : Txn} (h : copyTxn out t = .ok t') :
   split at h
   · cases h
   · rename_i rs hrs
-    simp only at h
-    split at h
-    · cases h
-    · injection h with h; subst h
-      simp [Txn.core, copyRecs_core hrs]
+    injection h with h; subst h
+    simp [Txn.core, copyRecs_core hrs]
 
 theorem copyRest_core : ∀ {post out h' : History}, copyRest out post = .ok h' →
     ∃ post', h' = out ++ post' ∧ post'.map Txn.core = post.map Txn.core := by
